@@ -96,7 +96,7 @@ func checkFilterSubscriptionTable(c *Ctx) {
 		if e == nil {
 			return nil
 		}
-		return &Term{K: "selrecv", S: fmt.Sprint(e.Arm), A: []*Term{e.Res}}
+		return selRecvTerm(e)
 	}
 	ts := &tableSpec{
 		Rule:   rule,
